@@ -38,7 +38,7 @@ FLOORS = {"quick": {"sink_acks_checked": 30000, "sink_sequences": 5000, "sender_
                        "faults_applied": 80000, "data_drops_applied": 30000, "ack_drops_applied": 30000, "delays_applied": 40000,
                        "timeouts_seen": 30000, "fast_retransmits_seen": 2000, "lossfree_runs": 60,
                        "exhaustive_spaces": 40, "cc_TCPCubic": 10000, "cc_TCPReno": 10000}}
-KEYS = tuple(FLOORS["quick"].keys()) + ("unusual_config_runs", "sink_long_hole_sequences", "random_pattern_runs", "dup_transmissions", "drained_after_completion", "slow_path_runs", "large_flow_id_or_rational_rtt_runs", "sink_prefixes_beyond_4GiB", "tiny_rtt_estimate_runs")
+KEYS = tuple(FLOORS["quick"].keys()) + ("unusual_config_runs", "sink_long_hole_sequences", "random_pattern_runs", "dup_transmissions", "drained_after_completion", "slow_path_runs", "large_flow_id_or_rational_rtt_runs", "sink_prefixes_beyond_4GiB", "tiny_rtt_estimate_runs", "finite_finish_time_runs", "retransmissions_after_finish_time", "loss_burst_runs")
 # floors for the situations added with the later rounds of seeded changes (evidence that they were really exercised)
 FLOORS["quick"].update({'slow_path_runs': 16})
 FLOORS["thorough"].update({'slow_path_runs': 100})
@@ -46,6 +46,8 @@ FLOORS["quick"].update({'large_flow_id_or_rational_rtt_runs': 24})
 FLOORS["thorough"].update({'large_flow_id_or_rational_rtt_runs': 200})
 FLOORS["quick"].update({'sink_prefixes_beyond_4GiB': 8, 'tiny_rtt_estimate_runs': 8})
 FLOORS["thorough"].update({'sink_prefixes_beyond_4GiB': 16, 'tiny_rtt_estimate_runs': 60})
+FLOORS["quick"].update({'finite_finish_time_runs': 200, 'retransmissions_after_finish_time': 100, 'loss_burst_runs': 40})
+FLOORS["thorough"].update({'finite_finish_time_runs': 3000, 'retransmissions_after_finish_time': 1500, 'loss_burst_runs': 500})
 MSS = 512
 
 
@@ -183,7 +185,15 @@ def sender_case(case, stats, bad):
     fid = case.get("flow_id", 1)
     if fid > 256:
         fid = int(str(fid))            # (not the interned small int: equal, but a different object than any literal)
-    flow = Flow(flow_id=fid, src="s", dst="d", start_time=0, finish_time=float("inf"), size=size)
+    fin, app = case.get("finish"), case.get("app")
+    if app:
+        # an application-limited flow that ends at its finish_time: "the data" is what the sender has sent by then
+        flow = Flow(flow_id=fid, src="s", dst="d", start_time=0, finish_time=fin, size=None,
+                    arrival_dist=lambda: app["gap"], size_dist=lambda: app["chunk"])
+    elif fin is not None:
+        flow = Flow(flow_id=fid, src="s", dst="d", start_time=0, finish_time=fin, size=size)     # (cut short: not all of it is sent)
+    else:
+        flow = Flow(flow_id=fid, src="s", dst="d", start_time=0, finish_time=float("inf"), size=size)
     if case["cc"] == "TCPReno":
         cc = TCPReno(ssthresh=case["ssthresh0"]) if "ssthresh0" in case else TCPReno()
     else:
@@ -205,8 +215,12 @@ def sender_case(case, stats, bad):
     stats["cc_" + case["cc"]] += 1
     HORIZON, CAP = 1e6, 200000
 
+    settle = 0.0 if fin is None else fin + 2 * (app["gap"] if app else 0.0) + 1.0
+
     def done():
-        return sender.last_ack == size and sink.recv_buffer and sink.recv_buffer[0][0] == 0 and sink.recv_buffer[0][1] >= size
+        end = size if fin is None else sender.next_seq
+        return (end > 0 and (env.now >= settle or env.peek() == float("inf")) and sender.last_ack == end and sink.recv_buffer and sink.recv_buffer[0][0] == 0
+                and sink.recv_buffer[0][1] >= end)
 
     err = None
     import signal
@@ -221,7 +235,7 @@ def sender_case(case, stats, bad):
             env.step()
             if sender.rto < min_rto:
                 min_rto = sender.rto
-            if t_done is None and sender.last_ack == size and done():
+            if t_done is None and sender.last_ack == (size if fin is None else sender.next_seq) and done():
                 t_done = env.now      # keep running: "the run never raises" also holds after completion
         if t_done is not None and env.peek() == float("inf"):
             stats["drained_after_completion"] += 1
@@ -253,8 +267,16 @@ def sender_case(case, stats, bad):
                                   and not any(a[1] == l[1] for a in atap.log))
     stats["fast_retransmits_seen"] += sum(1 for i, l in enumerate(dtap.log) if l[2] in {x[2] for x in dtap.log[:i]}
                                           and any(a[1] == l[1] for a in atap.log))
+    if fin is not None:
+        size = sender.next_seq
+        stats["finite_finish_time_runs"] += 1
+        seen = set()
+        for l in dtap.log:
+            if l[2] in seen and l[1] > fin:
+                stats["retransmissions_after_finish_time"] += 1
+            seen.add(l[2])
     if not done():
-        bad("no-progress-after-faults-stopped",
+        bad("no-progress-after-faults-stopped" + ("[flow ended by its finish time]" if fin is not None else ""),
             "after finitely many drops the sender did not get all data through and acknowledged within the horizon",
             {"last_ack": sender.last_ack, "size": size, "sink": sink.recv_buffer[:3], "now": env.now, "steps": env.steps,
              "agenda_empty": env.peek() == float("inf"), "data_tx": len(dtap.log), "acks": len(atap.log)})
@@ -374,6 +396,30 @@ def run_shard(ctx):
         stats["unusual_config_runs"] += 1
         stats["slow_path_runs"] += 1
         ctx.case_done(case, True)
+    # flows that end by their finish time (application-limited, or a sized flow cut short) with losses near the end:
+    # what was sent is still retransmitted until it is acknowledged
+    rng = ctx.rng("finish")
+    for j in range(40 if ctx.tier == "quick" else 300):
+        T = rng.choice([3.5, 5.5, 8.25])
+        case = {"kind": "sender", "n": rng.choice([20, 40]), "cc": ["TCPReno", "TCPCubic"][j % 2], "delay": rng.choice([0.1, 0.4]),
+                "rtt0": rng.choice([1.0, 0.5]), "finish": T, "data_drops": sorted(rng.sample(range(30), rng.randint(1, 5))),
+                "ack_drops": sorted(rng.sample(range(30), rng.randint(0, 2)))}
+        if rng.random() < 0.6:
+            case["app"] = {"gap": rng.choice([0.5, 1.0]), "chunk": rng.choice([512, 1024, 2048])}
+        applied = sender_case(case, stats, mk_bad(case))
+        ctx.case_done(case, applied >= 1)
+    # long loss bursts: the same segment (or its acknowledgement) is lost 17-22 times in a row; the path drops finitely
+    # many packets, so the sender has to go on (the RTO doubles every time, the horizon is far beyond the last of them)
+    rng = ctx.rng("burst")
+    for j in range(8 if ctx.tier == "quick" else 48):
+        n = rng.choice([1, 2, 4])
+        k = rng.choice([17, 18, 20, 22])
+        start = rng.choice([0, 0, 1, n])
+        case = {"kind": "sender", "n": n, "cc": ["TCPReno", "TCPCubic"][j % 2], "delay": 0.01, "rtt0": rng.choice([0.05, 0.01]),
+                "data_drops": list(range(start, start + k)) if j % 4 != 3 else [], "ack_drops": list(range(start, start + k)) if j % 4 == 3 else []}
+        stats["loss_burst_runs"] += 1
+        applied = sender_case(case, stats, mk_bad(case))
+        ctx.case_done(case, applied >= 1)
     # random patterns on longer flows
     rng = ctx.rng("rand")
     for i in ctx.cases(60 if ctx.tier == "quick" else 600):
